@@ -220,6 +220,42 @@ let handle kind c =
        ignore parked;
        if N.ltb total (N.add extra persisted) then
          prop "counts-invented" (Printf.sprintf "%s: in memory %s + persisted %s > added %s" where (hexn extra) (hexn persisted) (hexn total)))
+  | "dup" ->
+    (* two instances create the same counter while the file grows: oracle only *)
+    let first = next_int c in let k = next_int c in let same = next_bool c in
+    let status = next c in
+    let total = next_n c in let extra = next_n c in let persisted = next_n c in
+    let nrec = next_int c in let _steps = next_int c in let late_use = next_int c in
+    let where = if k >= 0 then Printf.sprintf "two instances record the same new 4 KiB name while the file must grow (instance %d runs %d steps, the other completes, the first finishes)" first k
+      else "two instances record the same new 4 KiB name while the file must grow (random interleaving)" in
+    if not same then diff "dup-same-file" ~model:"both instances map the same file" ~impl:"different files";
+    if late_use > 0 then
+      prop "entered-through-closed-mapping" (Printf.sprintf "%s: after both had returned, an Add went through a closed mapping (%d accesses): newCounter handed out a cell in a mapping it then closed" where late_use);
+    (match status with
+     | "panic" -> prop "panic" (where ^ ": a panic escaped from Counter.Add")
+     | "hang" -> prop "hang" (where ^ ": Counter.Add did not return within the step budget")
+     | _ ->
+       if nrec > 1 then prop "one-record-per-name" (Printf.sprintf "%s: %d linked records of the name" where nrec);
+       if N.ltb total (N.add extra persisted) then
+         prop "counts-invented" (Printf.sprintf "%s: in memory %s + persisted %s > added %s" where (hexn extra) (hexn persisted) (hexn total))
+       else if late_use = 0 && N.ltb (N.add extra persisted) total then
+         prop "counts-lost" (Printf.sprintf "%s: everything returned, files mapped: in memory %s + persisted %s < added %s" where (hexn extra) (hexn persisted) (hexn total)))
+  | "openapi" ->
+    (* the package-level Open(rotate) in a process of its own, per state of the mode file *)
+    let state = next c in let rotate = next_bool c in let status = next c in let created = next_bool c in
+    let mode = (match next c with
+        | "noconfig" -> None | "nomode" -> Some None | "mode" -> Some (Some (next_bytes c)) | t -> failwith ("mode tag " ^ t)) in
+    let where = Printf.sprintf "counter.Open(rotate=%b) called twice, mode file %s" rotate state in
+    (match status with
+     | "ok" ->
+       (match mode with
+        | Some m ->
+          (* Model/FileFault.mode_off: telemetry off <=> no counter file is created *)
+          let off = mode_off m in
+          if created = off then
+            diff (Printf.sprintf "openapi-%s-rotate-%b-file" state rotate) ~model:(Printf.sprintf "mode-off=%b" off) ~impl:(Printf.sprintf "file-created=%b" created)
+        | None -> if created then diff (Printf.sprintf "openapi-%s-file" state) ~model:"no directory: nothing created" ~impl:"file-created=true")
+     | _ -> prop "panic" (Printf.sprintf "%s: a panic escaped from opening the counters into the host program (%s)" where status))
   | k -> diff "unknown-case-kind" ~model:k ~impl:"-"
 
 let () = run_file Sys.argv.(1) handle
